@@ -65,3 +65,44 @@ func VerifMmsPlan(files []VerifPlanFile, level uint16, minGroupFileN int) [][]in
 	}
 	return out
 }
+
+// VerifFullPlan returns what one measurement contributes to a full-compaction plan
+// (buildFullCompactPlan: skipped when TSSPFiles.fullCompacted, else the CompactGroupBuilder fed
+// with every file, in low-level mode when toLevel > 0): the groups as indexes into files, the
+// level each group is compacted to, and whether the builder refused a file (the whole plan is
+// dropped then). parquetLevel stands for config.TSSPToParquetLevel().
+func VerifFullPlan(files []VerifPlanFile, toLevel uint16, parquetLevel uint16) (groups [][]int, toLevels []uint16, skipped bool, refused bool) {
+	fs := NewTSSPFiles()
+	idx := make(map[string]int, len(files))
+	for i, f := range files {
+		p := &verifPlanFile{f: f, path: fmt.Sprintf("verif-plan/%06d", i)}
+		idx[p.path] = i
+		fs.files = append(fs.files, p)
+	}
+	if fs.fullCompacted() {
+		return nil, nil, true, false
+	}
+	builder := &CompactGroupBuilder{
+		limit:        1,
+		parquetLevel: parquetLevel,
+		lowLevelMode: toLevel > 0,
+		level:        toLevel,
+	}
+	defer builder.Release()
+	builder.Init("verifplan", &fs.closing, fs.Len())
+	for _, f := range fs.files {
+		if !builder.AddFile(f) {
+			return nil, nil, false, true
+		}
+	}
+	builder.SwitchGroup()
+	for _, g := range builder.groups {
+		is := make([]int, 0, len(g.group))
+		for _, path := range g.group {
+			is = append(is, idx[path])
+		}
+		groups = append(groups, is)
+		toLevels = append(toLevels, g.toLevel)
+	}
+	return groups, toLevels, false, false
+}
